@@ -64,8 +64,42 @@ func c06Frame(c *sim.Ctx) (frame []byte, what string) {
 	return f, "valid"
 }
 
+// c06Mega: a PUBLISH whose remaining length is an exact multiple of 1 MiB
+// (k MiB, k = 1..40), followed by a PINGREQ: sizes at which chunked body readers
+// have their seams.
+func c06Mega(c *sim.Ctx) *sim.Violation {
+	k := 1 + int((c.Seed+c.Run*7)%40)
+	if !c.Thorough {
+		k = []int{1, 2, 4, 8, 10, 16, 20, 30, 32}[int(c.Run)%9]
+	}
+	n := k << 20
+	body := make([]byte, n)
+	copy(body, []byte{0, 1, 't', 0})
+	body[n-1] = 0x7E
+	frame := append(ref.AppendVarint([]byte{0x30}, uint32(n)), body...)
+	stream := append(append([]byte{}, frame...), 0xC0, 0x00)
+	r := link.NewReader(c, stream, link.Mode{})
+	got := ReadOne(r)
+	if r.Delivered != len(frame) {
+		return sim.V("C06/PUBLISH/ok/under-or-over-read", "PUBLISH with remaining length %d (%d MiB exactly): the call drew %d bytes, the frame has %d; result %s", n, k, r.Delivered, len(frame), oneOutcome(got))
+	}
+	if got.Kind != "packet" {
+		return sim.V("C06/PUBLISH/mega/not-decoded", "PUBLISH with remaining length %d: %s", n, got)
+	}
+	next := ReadOne(r)
+	if next.Kind != "packet" || next.Type != ref.PingReq {
+		return sim.V("C06/sequence/after-mega-frame", "after a PUBLISH of remaining length %d the following PINGREQ read as %s", n, next)
+	}
+	c.Count("probe.remaining-length-exact-multiple-of-1MiB")
+	c.DistinctStr(fmt.Sprintf("mega/%d", k))
+	return nil
+}
+
 func runC06(c *sim.Ctx) *sim.Violation {
 	t := c.T
+	if c.Run < 9 || (c.Thorough && c.Run < 40) {
+		return c06Mega(c)
+	}
 	n := 1 + t.Pick(3, 3, 2, 2)
 	if n == 4 {
 		n = 4 + t.Int(5)
